@@ -409,6 +409,8 @@ def run_history(w, hist_index: int) -> None:
                 spec = {"funcs": [], "classes": [step]}
                 name = step["name"]
             src = prog.render(spec)[len(prog.PRELUDE):] if spec is not None else step_source(step)
+            if step.get("in_function") and "name" in step:
+                src = in_function_body(src, step["name"])
             path = os.path.join(scratch, "hist_{}_{}_{}.py".format(os.getpid(), hist_index, step_no))
             with open(path, "w") as fid:
                 fid.write(src)
@@ -565,6 +567,13 @@ def fixed_histories_joins():
                 ]
 
 
+def in_function_body(src: str, name: str) -> str:
+    """The class is created inside the body of a function (a factory, a test function): its members carry `<locals>` in their
+    qualified names."""
+    body = "\n".join(("    " + line if line.strip() else line) for line in src.split("\n"))
+    return "def make_{n}():\n{b}\n    return {n}\n\n\n{n} = make_{n}()\n".format(n=name, b=body)
+
+
 def fixed_histories_reuse():
     """A member of an existing class re-used as it is in a new class: under the name of another member of the ancestors (which it
     overrides thereby), or in an unrelated hierarchy whose bases declare contracts for that name. The class which defined the
@@ -594,6 +603,16 @@ def fixed_histories_reuse():
             cls("KU", [], [member("m_a", [pre("ru", arg), post("eu")]), member("m_b", [post("ev")])]),
             cls("KD", ["KU"], [], ["m_a = " + donor], ["m_a"]),
             cls("KE", ["KU"], [], ["m_b = " + donor], ["m_b"]),
+        ]
+        # the same with every class created inside the body of a function
+        yield ("member-re-used-under-the-name-of-another-member/classes-made-in-functions", kind), [
+            dict(cls("KA", [], [member("m_a", [pre("ra", arg), post("ea")]), member("m_b", [pre("rb", arg), post("eb")])]), in_function=True),
+            dict(cls("KB", ["KA"], [], ["m_b = " + donor], ["m_b"]), in_function=True),
+        ]
+        yield ("member-re-used-in-an-unrelated-hierarchy/classes-made-in-functions", kind), [
+            dict(cls("KA", [], [member("m_a", [pre("ra", arg), post("ea")])]), in_function=True),
+            dict(cls("KU", [], [member("m_a", [pre("ru", arg), post("eu")])]), in_function=True),
+            dict(cls("KD", ["KU"], [], ["m_a = " + donor], ["m_a"]), in_function=True),
         ]
 
 
@@ -688,6 +707,8 @@ def replay(case, w) -> None:
                 spec = {"funcs": [], "classes": [step]}
                 name = step["name"]
             src = prog.render(spec)[len(prog.PRELUDE):] if spec is not None else step_source(step)
+            if step.get("in_function") and "name" in step:
+                src = in_function_body(src, step["name"])
             path = os.path.join(scratch, "replay_{}.py".format(step_no))
             with open(path, "w") as fid:
                 fid.write(src)
